@@ -9,6 +9,7 @@ exit 3: harness error (spurious counterexample, worker crash, failed self-valida
 import sys, os, json, time, subprocess, importlib, argparse, hashlib, concurrent.futures, traceback, tempfile
 
 VERIF = os.path.dirname(os.path.dirname(os.path.abspath(__file__)))
+EVDIR = os.environ.get("VERIF_EVIDENCE_DIR") or os.path.join(VERIF, "evidence")      # scratch runs against other trees write elsewhere
 PY = sys.executable
 
 
@@ -238,12 +239,16 @@ def main(argv=None):
     keyf = getattr(mod, "finding_key", None)
     confirmed = {}     # key -> dict
     spurious = []
+    unreal = []
     for r in replayed:
         if r.get("error"):
             harness_errors.append("replay error in %s: %s" % (r["case"], r["error"]))
             continue
         failed = r.get("failed", [])
         if r["role"] == "violation":
+            if not failed and r.get("unrealisable"):
+                unreal.append("%s: counterexample not realisable within the replay budget (%s): %s" % (r["case"], r["unrealisable"], r.get("label")))
+                continue
             if not failed:
                 spurious.append(r)
                 continue
@@ -257,7 +262,7 @@ def main(argv=None):
                 confirmed.setdefault(key, dict(key=key, case=r["case"], label=lab, values=r["values"], where=r.get("where"), count=0))
                 confirmed[key]["count"] += 1
     # symbolic violations without model values (solver could not produce one) -> inconclusive
-    inconclusive = []
+    inconclusive = list(unreal)
     for name, st in results.items():
         for inc in st["inconclusive"]:
             inconclusive.append("%s: %s" % (name, inc))
@@ -275,12 +280,12 @@ def main(argv=None):
     known_active = {e["key"]: e for e in known if e.get("status", "known") == "known"}
     violations = []
     known_hits = []
-    os.makedirs(os.path.join(VERIF, "evidence", "replays"), exist_ok=True)
+    os.makedirs(os.path.join(EVDIR, "replays"), exist_ok=True)
     for key, c in sorted(confirmed.items()):
         if key in known_active:
             known_hits.append((key, c))
             continue
-        path = os.path.join(VERIF, "evidence", "replays", "%s_%s.json" % (pid, hashlib.sha1(key.encode()).hexdigest()[:10]))
+        path = os.path.join(EVDIR, "replays", "%s_%s.json" % (pid, hashlib.sha1(key.encode()).hexdigest()[:10]))
         json.dump({"property": pid, "module": modname, "tier": tier, "case": c["case"], "label": c["label"], "key": key,
                    "values": c["values"], "where": c["where"],
                    "how": "cd /verif && bin/check %s --replay %s" % (pid, path)}, open(path, "w"), indent=1)
@@ -345,8 +350,8 @@ def main(argv=None):
             ev["coverage"].update(extra(tier, results))
         except Exception as e:
             harness_errors.append("extra_evidence failed: %r" % e)
-    os.makedirs(os.path.join(VERIF, "evidence"), exist_ok=True)
-    json.dump(ev, open(os.path.join(VERIF, "evidence", "%s.json" % pid), "w"), indent=1, default=str)
+    os.makedirs(EVDIR, exist_ok=True)
+    json.dump(ev, open(os.path.join(EVDIR, "%s.json" % pid), "w"), indent=1, default=str)
     import shutil
     shutil.rmtree(tmp, ignore_errors=True)
     if violations:
